@@ -430,4 +430,65 @@ theorem C14_wu_replenish_stream (r : Recv) (sid inc : Nat) (hn : (r.pending.map 
     have := sumK_of_not_mem r.pending sid (find?_none_not_mem r.pending sid hf)
     omega
 
+/-! ## HPACK table sizes -/
+
+/-- the signal is never lost: while a change is pending it carries the encoder's
+    size, and when nothing is pending the peer's decoder has been told the
+    encoder's size -/
+def HpInv (h : Hp) : Prop :=
+  match h.pending with
+  | some v => v = h.encSize
+  | none => h.announced = h.encSize
+
+theorem hpStep_inv (h : Hp) (op : HpOp) (hi : HpInv h) : HpInv (hpStep true h op).1 := by
+  cases op with
+  | settings v cap => simp [hpStep, HpInv]
+  | pass headers =>
+    unfold hpStep
+    cases hp : h.pending with
+    | none => simpa [HpInv, hp] using hi
+    | some v =>
+      have hv : v = h.encSize := by simpa [HpInv, hp] using hi
+      cases headers
+      · simpa [HpInv, hp] using hv
+      · simp [HpInv, hv]
+
+/-- Every change of SETTINGS_HEADER_TABLE_SIZE is signalled at the start of the
+    next header block, whatever header-less passes (SETTINGS ACK, DATA-only,
+    idle) intervene, and exactly once: for every schedule of SETTINGS and write
+    passes, right after any pass that carried a header block the size announced
+    on the wire equals the encoder's table size and nothing is pending; a pass
+    with a header block emits an update iff one was pending, and that update is
+    the encoder's current size (hence never above the peer's last setting). -/
+theorem C14_hpack_size_update_signalled (ops : List HpOp) :
+    HpInv (hpRun true Hp.init ops) ∧
+    (let h := hpRun true Hp.init ops
+     (hpStep true h (.pass true)).1.pending = none ∧
+     (hpStep true h (.pass true)).1.announced = (hpStep true h (.pass true)).1.encSize ∧
+     (hpStep true h (.pass true)).2 = h.pending ∧
+     (hpStep true h (.pass false)).1 = h ∧ (hpStep true h (.pass false)).2 = none) := by
+  have hinv : ∀ (ops : List HpOp) (h : Hp), HpInv h → HpInv (hpRun true h ops) := by
+    intro ops
+    induction ops with
+    | nil => intro h hi; exact hi
+    | cons o os ih => intro h hi; exact ih _ (hpStep_inv h o hi)
+  have hi := hinv ops Hp.init (by simp [HpInv, Hp.init])
+  refine ⟨hi, ?_⟩
+  simp only
+  cases hp : (hpRun true Hp.init ops).pending with
+  | none =>
+    have : (hpRun true Hp.init ops).announced = (hpRun true Hp.init ops).encSize := by simpa [HpInv, hp] using hi
+    simp [hpStep, hp, this]
+  | some v =>
+    have hv : v = (hpRun true Hp.init ops).encSize := by simpa [HpInv, hp] using hi
+    simp [hpStep, hp, hv]
+
+/-- moving the signal into the per-pass converter without giving it back loses it
+    in the first header-less pass: the peer keeps 4096 while the encoder uses 0 -/
+theorem C14_hpack_size_update_signalled_needs_bookkeeping :
+    let ops := [HpOp.settings 0 65536, .pass false, .pass true]
+    (hpRun false Hp.init ops).announced = 4096 ∧ (hpRun false Hp.init ops).encSize = 0 ∧
+    (hpRun true Hp.init ops).announced = 0 := by decide
+
+
 end Sozu.H2Flow
